@@ -363,3 +363,117 @@ fn c16_search_best_n2() {
 fn c16_search_best_n3() {
     check_search_best::<3>();
 }
+pub(crate) fn set_tree_word(t: &Trees, i: usize, bits: u32) {
+    t.entries[i].store(Tree::from_bits(bits));
+}
+
+// ---------------------------------------------------------------------------------------------
+// Contract of `Trees::search_best` as seen by its callers (allocator level), and its stub.
+//   * `access` is only called with tree ids inside the array, on trees that were unreserved and not
+//     rated Invalid when scanned;
+//   * the result is the first result of `access` that is not Err(Memory); if every call reports
+//     Err(Memory) (or none is made) the result is Err(Memory).
+// The stub makes at most SB_STUB_CALLS calls on arbitrary in-range ids. For callers whose `access`
+// is itself replaced by the generic helper contract G (havoc under invariant I; an Err(Memory)
+// outcome leaves every lower-level counter unchanged) any longer sequence of failing calls is
+// equivalent to one failing call, so two calls over-approximate every real sequence.
+// ---------------------------------------------------------------------------------------------
+pub(crate) const SB_STUB_CALLS: usize = 2;
+impl Trees<'_> {
+    pub(crate) fn search_best_contract<const N: usize, R>(
+        &self,
+        start: TreeId,
+        _offset: usize,
+        len: usize,
+        _rate: impl Fn(Class, usize) -> Policy,
+        access: impl Fn(TreeId) -> Result<R>,
+    ) -> Result<R> {
+        kani::assert(start.0 < (1usize << 62), "search_best precondition: start index does not overflow the signed offset arithmetic");
+        if self.entries.len() == 0 || _offset >= len {
+            return Err(Error::Memory);
+        }
+        let mut k = 0;
+        while k < SB_STUB_CALLS {
+            if kani::any() {
+                let i: usize = kani::any();
+                kani::assume(i < self.entries.len());
+                match access(TreeId(i)) {
+                    Err(Error::Memory) => {}
+                    r => return r,
+                }
+            }
+            k += 1;
+        }
+        Err(Error::Memory)
+    }
+}
+
+/// `search_best` against the result part of that contract: the visit sequence stops at the first
+/// access that does not report Err(Memory) and its result is returned; ids stay in range.
+static mut ACC_RES: [u8; 16] = [0; 16];
+fn check_search_best_result<const N: usize>() {
+    let words: [u32; SB_TREES] = kani::any();
+    let entries: [Atom<Tree>; SB_TREES] = core::array::from_fn(|i| new_entry(words[i]));
+    let mut i = 0;
+    while i < SB_TREES {
+        let t = Tree::from_bits(words[i]);
+        kani::assume(tree_wf(t) && t.free() == i + 1);
+        i += 1;
+    }
+    let rate_code: [u8; SB_TREES] = kani::any();
+    let rate_m: [u8; SB_TREES] = kani::any();
+    let acc: [u8; 16] = kani::any(); // per visit: 0 = Err(Memory), 1 = Ok, 2 = Err(Argument)
+    let mut i = 0;
+    while i < SB_TREES {
+        kani::assume(rate_code[i] < 4);
+        i += 1;
+    }
+    unsafe {
+        RATE = rate_code;
+        RATE_M = rate_m;
+        NVISITS = 0;
+        ACC_RES = acc;
+    }
+    let trees = make_trees(&entries, Class(0));
+    let start: usize = kani::any();
+    kani::assume(start < SB_TREES);
+    let r: Result<usize> = trees.search_best::<N, usize>(
+        TreeId(start),
+        0,
+        SB_TREES,
+        |_class, free| unsafe { code_policy(RATE[free - 1], RATE_M[free - 1]) },
+        |i| unsafe {
+            let k = NVISITS;
+            VISITS[k] = i.0;
+            NVISITS += 1;
+            match ACC_RES[k] % 3 {
+                0 => Err(Error::Memory),
+                1 => Ok(k),
+                _ => Err(Error::Argument),
+            }
+        },
+    );
+    let n = unsafe { NVISITS };
+    let visits = unsafe { VISITS };
+    let mut j = 0;
+    while j < n {
+        clause!(visits[j] < SB_TREES, "search_best calls access only with tree ids inside the array");
+        clause!(!Tree::from_bits(words[visits[j]]).reserved() && rate_code[visits[j]] != 3, "search_best never accesses reserved or Invalid-rated trees");
+        if j + 1 < n {
+            clause!(acc[j] % 3 == 0, "search_best continues only after Err(Memory)");
+        }
+        j += 1;
+    }
+    match r {
+        Ok(k) => clause!(n >= 1 && k == n - 1 && acc[k] % 3 == 1, "search_best returns the first successful access"),
+        Err(Error::Memory) => clause!(n == 0 || acc[n - 1] % 3 == 0, "search_best reports Memory only if every access did"),
+        Err(_) => clause!(n >= 1 && acc[n - 1] % 3 == 2, "search_best propagates the first other error"),
+    }
+}
+#[kani::proof]
+#[kani::unwind(8)]
+#[kani::stub(<[core::option::Option<crate::util::OrdBy<(Policy, bool), TreeId>>]>::rotate_right, rotate_right_model)]
+#[kani::stub(<[core::option::Option<crate::util::OrdBy<(Policy, bool), TreeId>>]>::rotate_left, rotate_left_model)]
+fn l1b_search_best_result_n3() {
+    check_search_best_result::<3>();
+}
